@@ -210,9 +210,9 @@ def int_combo_hints(lhs, rhs):
     for m, c in d.items():
         its = poly.m_items(m)
         if len(its) == 1 and its[0][1] == 1:
-            zt = red.zvars.get(its[0][0])
-            if zt is not None and (z3.is_int(zt) or zt.decl().kind() == z3.Z3_OP_TO_REAL):
-                lin.append((zt if z3.is_int(zt) else zt.arg(0), c))
+            zt = red.int_vars.get(its[0][0])
+            if zt is not None:
+                lin.append((zt, c))
     if len(lin) < 2:
         return []
     c0 = lin[0][1]
